@@ -305,6 +305,29 @@ def check_drivers(F, res):
                         'entry of a sequence (index == 0), otherwise resumed sequences are reported again')
 
 
+def recursion_of(F, drv):
+    """a call path drv -> ... -> drv through functions of the driver's own file (MIR, resolved callees), or None"""
+    from mirinline import callee_of
+    from heval import file_of
+    home = file_of(F, drv)
+    todo, seen = [(drv, (drv,))], set()
+    while todo:
+        p, path = todo.pop()
+        for q in [p] + [x for x in F.mir if x.startswith(p + '::{closure')]:
+            for b in (F.mir.get(q) or {'blocks': []})['blocks']:
+                t = b['term']
+                if t.get('t') != 'Call':
+                    continue
+                k = (t.get('func') or {}).get('k') or {}
+                c = callee_of(t, F) or norm_path(k.get('fn') or '')
+                if c == drv or norm_path(c) == drv:
+                    return path + (drv,)
+                if c in F.mir and c not in seen and file_of(F, c) == home:
+                    seen.add(c)
+                    todo.append((c, path + (c,)))
+    return None
+
+
 def check_driver_worlds(F, res):
     """Both traversal drivers, decided on the worlds of one generic outer iteration with the helpers next to them looked
     through (so a private enum / struct / function that a maintainer introduces does not matter):
@@ -317,6 +340,11 @@ def check_driver_worlds(F, res):
         d = drv.split('::')[-1]
         if drv not in F.hir:
             res.bad('driver/%s/missing' % d, 'traversal driver not found')
+            continue
+        rec = recursion_of(F, drv)
+        if rec:
+            res.bad('driver/%s/recursive' % d, 'the traversal driver calls itself (%s): nested sequences are walked on the call stack, '
+                    'whose depth then grows with the nesting depth of the function body' % ' -> '.join(x.split('::')[-1] for x in rec))
             continue
         nop = local_policy(F, drv, public_events=True, events=[r'Vec::push$', r'::extend$'])
         try:
